@@ -142,15 +142,15 @@ def case_line(cid, c):
     return " ".join(toks)
 
 # ------------------------------------------------------------------ running
-SCALARS = {"q": 0, "d": 1, "f": 2, "h": 3}
+SCALARS = {"q": 0, "d": 1, "f": 2, "h": 3, "D": 4, "E": 5}     # D: dual numbers over exact rationals, E: dual numbers over double
 def harness_name(s, ndebug, flt, scalar="q"):
-    return "h%s%s%s%s" % (scalar, s, "" if ndebug else "a", "f" if flt else "")
+    return "h%s%s%s%s" % (scalar, s, "" if ndebug else "a", "f" if flt == 1 else "")
 def harness_specs(gsets, ndebug=True, flt=False, scalar="q"):
     specs = []
     for s in gsets:
-        defs = ["-DVQ_GROUPSET=%s" % s, "-DVQ_SCALAR=%d" % SCALARS[scalar]] + (["-DNDEBUG"] if ndebug else []) + (["-DVQ_FLOAT_THRESHOLDS"] if flt else [])
+        defs = ["-DVQ_GROUPSET=%s" % s, "-DVQ_SCALAR=%d" % SCALARS[scalar]] + (["-DNDEBUG"] if ndebug else []) + (["-DVQ_FLOAT_THRESHOLDS"] if flt == 1 else [])
         specs.append(dict(name=harness_name(s, ndebug, flt, scalar), source="main.cpp", defines=defs,
-                          flags=("-std=c++11", "-O1") if scalar in "qh" else ("-std=c++11", "-O2"),
+                          flags=("-std=c++11", "-O1") if scalar in "qhD" else ("-std=c++11", "-O2"),
                           libs=("-lgmpxx", "-lgmp", "-lmpfr")))
     return specs
 
@@ -168,7 +168,7 @@ def run_cases(cases, ndebug=True, timeout=1200, scalar="q", model=True):
         by.setdefault((gset_of(c["group"]), c["flt"]), []).append((i, c))
     specs = []
     for (s, flt) in by:
-        specs += harness_specs([s], ndebug, bool(flt), scalar)
+        specs += harness_specs([s], ndebug, flt, scalar)
     bins = vlib.build_many(specs)
     build_errors = {n: log for n, (p, log) in bins.items() if p is None}
     results = [None] * len(cases)
@@ -202,6 +202,12 @@ def run_cases(cases, ndebug=True, timeout=1200, scalar="q", model=True):
             for i, r, m in lst:
                 results[i] = dict(case=cases[i], impl=r, model=m)
     return results, build_errors
+
+def dualize(g, c, zero=False):
+    """the same case over the dual-number scalar: every argument vector becomes (primal parts ++ dual parts)"""
+    d = dict(c); d["flt"] = 2
+    d["args"] = [list(a) + [Fr(0) if zero else g.small(4) for _ in a] for a in c["args"]]
+    return d
 
 def nontrivial(res):
     """a result is non-trivial when it is ok and not made only of 0/1 entries"""
